@@ -238,3 +238,5 @@ def run(ctx, out, replay=None):
     fr.run_cases(ctx, out, cases, nc.run_impl, nc.to_coq, oracle, failure_key, HEADER,
                  dist_key=lambda c: c.get("stream", "?") + ("/" + c["expect"][7:] if (c.get("expect") or "").startswith("reject:") else ""),
                  nontrivial=nontrivial, shard=100, shrink=shrink)
+    for f in out.failures:      # a shrunk input is filed under the failure it shows
+        f["key"] = failure_key(None, f.get("why"))
